@@ -109,6 +109,7 @@ type CfgSpec struct {
 	ResetupHostLagMs   int64 `json:"resetup_host_lag_ms,omitempty"`
 	SameZKIdentity     bool  `json:"same_zk_identity,omitempty"` // C03 sub-family: restart keeps {hostname,pid}
 	LogLevel           string `json:"log_level,omitempty"`
+	CustomLagQuery     bool   `json:"custom_lag_query,omitempty"`
 }
 
 type WorldSpec struct {
